@@ -3,7 +3,7 @@
 import numpy as np
 
 from ..core import violation, Discard, ddmin_list
-from ..gen_scenes import gen_chain_scene
+from ..gen_scenes import gen_chain_scene, gen_rod_scene
 from ..scenes import build
 from ..seams import Sim
 from ..session import DYNAMIC, gen_solver, project_velocities, run_solver, solver_options, check_solution_shape, require_regular
@@ -34,7 +34,27 @@ ASSUMPTIONS = [
 ]
 
 
+ROD_SOLVERS = ["Rattle", "BackwardEuler", "Moreau", "DualStormerVerlet", "ScipyDAE", "BackwardEuler"]
+
+
+def gen_rod(rng, tier, index):
+    """Dynamic Cosserat-rod sessions: the rod's internal constraints, the joints at its ends and its nodal
+    quaternions are what the monitors look at."""
+    name = ROD_SOLVERS[index % len(ROD_SOLVERS)]
+    scene = gen_rod_scene(rng)
+    if name == "ScipyDAE":
+        scene["rods"][0]["spec"]["constraints"] = None  # the DAE wrapper refuses rods with internal constraints
+    explicit = name in ("Moreau", "DualStormerVerlet")
+    dt = float(10 ** (rng.uniform(-3.6, -3.1) if explicit else rng.uniform(-2.7, -2.0)))
+    steps = int(rng.integers(10, 60 if tier == "thorough" else 30))
+    solver = gen_solver(rng, name, steps, dt, contacts=False)
+    solver["options"].pop("numerical_jacobian_method", None)
+    return {"scene": scene, "solver": solver, "kind": "rod"}
+
+
 def gen(rng, tier, index):
+    if (index // len(DYNAMIC)) % 5 == 4:
+        return gen_rod(rng, tier, index)
     name = DYNAMIC[index % len(DYNAMIC)]
     scene = gen_chain_scene(rng, rigid_only=False)
     if not scene["joints"]:
@@ -66,7 +86,8 @@ def _sig(plan):
     jt = tuple(sorted(j["type"] for j in sc["joints"]))
     loop = any(j.get("loop") for j in sc["joints"])
     moving = any((f.get("motion") is not None) for f in sc["frames"])
-    return repr((knobs, jt, loop, moving))
+    rods = tuple((r["spec"]["interp"], r["spec"]["mixed"], tuple(r["spec"]["constraints"] or ()), r["spec"]["degree"]) for r in sc.get("rods", []))
+    return repr((knobs, jt, loop, moving, rods))
 
 
 def quat_norms(B, q):
@@ -75,6 +96,10 @@ def quat_norms(B, q):
         if b["kind"] == "rigid":
             p = q[B.bodies[i].qDOF][3:]
             worst = max(worst, abs(np.linalg.norm(p) - 1.0))
+    for rod in getattr(B, "rods", []):
+        qr = q[rod.qDOF]
+        for n in range(rod.nnodes_p):
+            worst = max(worst, abs(np.linalg.norm(qr[rod.nodalDOF_p[n]]) - 1.0))
     return worst
 
 
@@ -176,6 +201,8 @@ def monitor(R, out, log):
                 return
     log.ev("worst", name, worst["g"], worst["g_dot"], worst["mid"], worst["quat"])
     out["probes"][f"ran_{name}"] += 1
+    if getattr(B, "rods", None):
+        out["probes"]["rod_session"] += 1
     return worst
 
 
